@@ -8,6 +8,7 @@ package storage
 import (
 	"encoding/binary"
 
+	"github.com/MixinNetwork/mixin/common"
 	"github.com/MixinNetwork/mixin/crypto"
 	"github.com/dgraph-io/badger/v4"
 )
@@ -37,4 +38,18 @@ func (s *BadgerStore) VerifReadWorkCheckpoint(nodeId crypto.Hash) (round uint64,
 		return nil
 	})
 	return
+}
+
+// VerifC26WriteSnapshotWork stores one work record with the writer WriteSnapshot uses.
+func (s *BadgerStore) VerifC26WriteSnapshotWork(nodeId crypto.Hash, round, timestamp uint64, hash crypto.Hash, signers []crypto.Hash) error {
+	return s.snapshotsDB.Update(func(txn *badger.Txn) error {
+		snap := &common.SnapshotWithTopologicalOrder{Snapshot: &common.Snapshot{
+			Version:     common.SnapshotVersionCommonEncoding,
+			NodeId:      nodeId,
+			RoundNumber: round,
+			Timestamp:   timestamp,
+			Hash:        hash,
+		}}
+		return writeSnapshotWork(txn, snap, signers)
+	})
 }
